@@ -132,6 +132,12 @@ func execute(progs [][]op, sched []int, greedy bool) outcome {
 	return o
 }
 
+// enough: the run has already established a violation many times over (or keeps hanging); stop
+// generating more cases.
+func (x *runner) enough() bool {
+	return x.hangs > 2 || x.r.Dist["D-failures"] >= 30 || x.r.Dist["K-disagreements"] >= 3000
+}
+
 // runCase = (i) real code, (ii) D, (iii) K for one configuration and schedule.
 func (x *runner) runCase(progs [][]op, sched []int, greedy bool) outcome {
 	complete := greedy
@@ -189,7 +195,7 @@ func (x *runner) exploreAll(progs [][]op, limit int) bool {
 	outcomes := map[string]bool{}
 	n := 0
 	for len(stack) > 0 {
-		if n >= limit || x.hangs > 2 || len(x.r.OracleFailures) > 50 {
+		if n >= limit || x.enough() {
 			x.r.Count("explore:truncated")
 			return false
 		}
@@ -418,28 +424,28 @@ func Run(cfg Config) *hx.Result {
 
 	// 1. fixed corpus, every schedule
 	for _, spec := range corpus {
-		x.exploreAll(mk(spec), 200000)
+		if !x.enough() {
+			x.exploreAll(mk(spec), 200000)
+		}
 	}
 	// 2. exhaustive over configurations
 	exhaustive := true
-	for _, progs := range allProgs(2, 1) {
-		exhaustive = x.exploreAll(progs, 200000) && exhaustive
-	}
+	families := [][2]int{{2, 1}}
 	if thorough {
-		for _, progs := range allProgs(3, 1) {
-			exhaustive = x.exploreAll(progs, 200000) && exhaustive
-		}
-		for _, progs := range allProgs(2, 2) {
-			exhaustive = x.exploreAll(progs, 200000) && exhaustive
+		families = [][2]int{{2, 1}, {3, 1}, {2, 2}}
+	}
+	for _, f := range families {
+		for _, progs := range allProgs(f[0], f[1]) {
+			exhaustive = !x.enough() && x.exploreAll(progs, 200000) && exhaustive
 		}
 	}
 	// 3. sampled configurations of the property's space: all schedules when affordable, and random
 	// schedules with disabled picks and early stops
 	nCfg, nSched, limit := 120, 25, 6000
 	if thorough {
-		nCfg, nSched, limit = 400, 60, 60000
+		nCfg, nSched, limit = 300, 60, 60000
 	}
-	for i := 0; i < nCfg && x.hangs <= 2; i++ {
+	for i := 0; i < nCfg && !x.enough(); i++ {
 		progs := randomProgs(rng, 3, 2, 2)
 		r.Count(fmt.Sprintf("threads:%d", len(progs)))
 		for j := 0; j < nSched; j++ {
@@ -451,7 +457,7 @@ func Run(cfg Config) *hx.Result {
 	}
 	// 4. larger random ones (thorough)
 	if thorough {
-		for i := 0; i < 300 && x.hangs <= 2; i++ {
+		for i := 0; i < 200 && !x.enough(); i++ {
 			progs := randomProgs(rng, 5, 3, 3)
 			r.Count(fmt.Sprintf("threads:%d", len(progs)))
 			for j := 0; j < 40; j++ {
